@@ -221,7 +221,9 @@ func (s *Stack) GetString(expr string) (string, bool) {
 	case string:
 		return t, true
 	case fmt.Stringer:
-		return t.String(), true
+		// printed as everywhere else: fmt asks for String() itself and survives
+		// a nil pointer or a String method that panics
+		return helpers.Sprint(t), true
 	case int, int8, int16, int32, int64:
 		return fmt.Sprintf("%d", t), true
 	case uint, uint8, uint16, uint32, uint64:
